@@ -28,10 +28,14 @@ pub struct Server {
 impl Server {
 	/// `args` are appended to `versatiles serve -i 127.0.0.1 -p <port>`
 	pub fn start(args: &[String], cwd: &Path) -> Result<Server, String> {
+		Self::start_in(args, cwd, cwd)
+	}
+	/// like `start`, but the server's log goes to `log_dir` (for servers whose working directory is served)
+	pub fn start_in(args: &[String], cwd: &Path, log_dir: &Path) -> Result<Server, String> {
 		let bin = binary().ok_or("versatiles binary not built")?;
 		for attempt in 0..4 {
 			let port = free_port();
-			let stderr_file = cwd.join(format!("server_{port}.stderr"));
+			let stderr_file = log_dir.join(format!("server_{port}.stderr"));
 			let f = std::fs::File::create(&stderr_file).map_err(|e| e.to_string())?;
 			let mut c = Command::new(&bin);
 			c.arg("serve").arg("-i").arg("127.0.0.1").arg("-p").arg(port.to_string());
